@@ -2,6 +2,7 @@
 import re
 import analyses as A
 import lib
+import witness
 import lockgraph as LG
 import tpc_rules as T
 
@@ -315,3 +316,5 @@ def run(ctx, rep):
     r12b(ctx, rep, cr)
     r12c(ctx, rep, cr)
     r12d(ctx, rep, cr)
+    if ctx.tier == 'thorough':
+        witness.run(rep, 'R12a', ['LockTablesArePrivate'])
